@@ -591,6 +591,38 @@ def r6_await_registration(ctx):
     ok = bool(sends) and bool(rem) and bool(ecr) and all(c.reaches(r, s) for r in rem for s in sends)
     ctx.check(ok, R, c.key + "|report", "check_completed_processes takes the registered awaiters of a completed target and sends ProcessResults to them",
               "check_completed_processes no longer reports completions to registered awaiters", c.loc(0))
+    # EVERY awaited target is examined, and "finished" is read off Process.result (extract_completed_result), not off a status summary: the pids
+    # handed to extract_completed_result are the elements of `self.awaited` with no narrowing step on the way (get_status reports Waiting ahead of
+    # Failed, so a target that was failed by propagation while parked would be filtered out for ever), and no iteration skips the extraction
+    fcl = Flow(c, through_named=True)
+    TCP = ("Iterator::collect", "Iterator::map", "Iterator::filter", "Iterator::filter_map", "slice::iter", "Deref::deref", "IntoIterator::into_iter", "Iterator::cloned",
+           "Iterator::copied", "HashSet::iter", "Iterator::next", "Iterator::take", "Iterator::skip", "Iterator::take_while", "Iterator::skip_while", "Clone::clone",
+           "Vec::iter", "BTreeSet::iter", "Iterator::rev")
+    for eb in ecr:
+        et = c.blocks[eb]["term"]
+        pp = op_place(et["args"][1]) if len(et["args"]) > 1 else None
+        if not pp:
+            continue
+        back = fcl.backward({pp["l"]}, through_calls=TCP + ("HashMap::keys", "HashMap::iter", "BTreeMap::keys"))
+        regs = {f for o_, f in fcl.slice_reads(pp["l"], through_calls=TCP + ("HashMap::keys", "HashMap::iter", "BTreeMap::keys"))[0] if (o_ or "").endswith("worker::Worker")}
+        from_awaited = bool(regs & {"awaited", "pending_result_requests"})       # the two registries of "someone waits for this process"
+        steps = sorted({(t.get("callee") or "").split("::")[-1] for _cb, t in c.calls() if t["dest"]["l"] in back and
+                        any((t.get("callee") or "").endswith(x) for x in NARROWING if x != "Iterator::next")})
+        ctx.check(from_awaited and not steps, R, c.key + "|every-awaited-target#%d" % ecr.index(eb), "each element of `awaited` is handed to extract_completed_result (finished = has a result)",
+                  "the targets examined for completion are %s: a target that holds a result but is filtered out (e.g. by a status that reports Waiting "
+                  "ahead of Failed) is never reported to its awaiters" % ("narrowed by " + ", ".join(steps) if steps else "not the elements of `awaited`"), c.loc(eb))
+        heads = [bi for bi, t in c.calls() if (t.get("callee") or "").endswith("Iterator::next") and c.dominates(bi, eb) and c.reaches(eb, bi)]
+        if heads:
+            h0 = heads[0]
+            for h in heads:
+                if c.dominates(h0, h):
+                    h0 = h
+            some_edges = [m.get(1, other) for _swb, m, other in discr_switches(c, c.blocks[h0]["term"]["dest"]["l"])]
+            skip = None
+            for e in some_edges:
+                skip = skip or explore(c, [e], avoid=[eb], stop=err_blocks(c) | diverging_blocks(c), want="target", targets=[h0])
+            ctx.check(bool(some_edges) and skip is None, R, c.key + "|no-skipped-target#%d" % ecr.index(eb), "no iteration over the awaited targets skips the extraction",
+                      "an iteration over the awaited targets can skip extract_completed_result: %s" % path_desc(c, skip), c.loc(h0))
     # it is invoked by every Worker::step after the executor step
     st = F.body("quiver_environment::worker::Worker::step")
     cc = [bi for bi, _t in st.calls_to("Worker::check_completed_processes")]
